@@ -33,7 +33,7 @@ QCLASSES = ['train', 'gauss', 'dup', 'far', 'magnitude', 'int', 'axis']
 
 def cases(tier, seed):
   out = []
-  nds = 2 if tier == 'quick' else 8
+  nds = 2 if tier == 'quick' else 24
   nq = 16 if tier == 'quick' else 150
   variants = ('plain', 'unbalanced', 'offset', 'small_scale', 'large_scale',
               'illcond', 'int', 'dyadic')
